@@ -9,7 +9,9 @@ KNOWN = {"CF12": "CF12"}
 # TRUE : after a repair that keys the map by (kind, key): no allowance anywhere, witnesses dropped.
 # VERIF_C12_FIXED=1 selects TRUE without editing (used to test notes/c12_fix_CF12.diff with bin/mutcheck);
 # the trace config of the repaired variant is generated from TraceRecency.cfg.
-KEY_BY_KIND = os.environ.get("VERIF_C12_FIXED") == "1"
+# The repair (one recency map per kind) is applied in /repo (fix commit ab0f27c): TRUE is the default;
+# VERIF_C12_FIXED=0 selects the pre-fix model again (only useful to study the old behaviour).
+KEY_BY_KIND = os.environ.get("VERIF_C12_FIXED", "1") == "1"
 
 INV = "TypeOK ObserveExact NeverDropUncovered DropRemoves KeepKeeps FreshRestart InterferenceIsCrossKind UncoveredUntracked"
 STRICT = "TypeOK StrictObserveExact NoInterference NeverDropUncovered DropRemoves KeepKeeps FreshRestart UncoveredUntracked"
